@@ -12,7 +12,8 @@ rebuilt bit-for-bit:
 Nothing here imports TotalDepth: the encoders are written from the LIS-79 layout (mirrored by the Lean spec encoder
 `TD.C06.Spec`, cross-checked on every run of C06).  Channel values are kept as raw big-endian *words*.
 """
-import random, struct
+import math, random, struct
+from fractions import Fraction
 
 RC_SIZE = {49: 2, 50: 4, 56: 1, 66: 1, 68: 4, 70: 4, 73: 4, 77: 1, 79: 2}
 FRAME_RCS = [49, 50, 56, 66, 68, 70, 73, 77, 79]
@@ -64,6 +65,70 @@ def int_range(rc):
             56: (-128, 127), 66: (0, 255)}[rc]
 
 
+# ---- floating point X values (exact decoders written from the LIS-79 layouts; encoders give a nearby word)
+
+def dec68(w):
+    neg = bool(w & 0x80000000)
+    frac = w & 0x007FFFFF
+    e = (w >> 23) & 0xFF
+    if neg:
+        return Fraction(frac - (1 << 23)) * Fraction(2) ** (104 - e)
+    return Fraction(frac) * Fraction(2) ** (e - 151)
+
+
+def enc68_float(v):
+    v = Fraction(v)
+    if v == 0:
+        return 0
+    e = math.floor(math.log2(abs(float(v)))) + 1          # |v| < 2**e
+    for e in (e, e + 1):
+        m = round(v * Fraction(2) ** (23 - e))
+        if v > 0 and m < (1 << 23) and 0 <= e + 128 <= 255:
+            return ((e + 128) << 23) | m
+        if v < 0 and -(1 << 23) <= m < 0 and 0 <= 127 - e <= 255:
+            return (1 << 31) | ((127 - e) << 23) | ((1 << 23) + m)
+    raise ValueError(v)
+
+
+def dec49(w):
+    m = w & 0xFFF0
+    if w & 0x8000:
+        m -= 0x10000
+    return Fraction(m, 1 << 15) * (1 << (w & 0xF))
+
+
+def enc49(v):
+    v = Fraction(v)
+    for e in range(16):
+        m = round(v * Fraction(1 << 15, 1 << e) / 16) * 16
+        if -0x8000 <= m <= 0x7FF0:
+            return (m & 0xFFF0) | e
+    raise ValueError(v)
+
+
+def dec50(w):
+    mant = w & 0xFFFF
+    if w & 0x8000:
+        mant -= 0x10000
+    return Fraction(mant) * Fraction(2) ** (((w >> 16) & 0x3FF) - 15)
+
+
+def enc50(v):
+    v = Fraction(v)
+    if v == 0:
+        return 0
+    e = max(-15, math.floor(math.log2(abs(float(v)))) - 14)
+    for e in (e, e + 1):
+        m = round(v / Fraction(2) ** e)
+        if -0x8000 <= m <= 0x7FFF and 0 <= e + 15 <= 0x3FF:
+            return ((e + 15) << 16) | (m & 0xFFFF)
+    raise ValueError(v)
+
+
+XDEC = {68: dec68, 49: dec49, 50: dec50}
+XENC = {68: enc68_float, 49: enc49, 50: enc50}
+
+
 def word_bytes(rc, w):
     return w.to_bytes(RC_SIZE[rc], 'big')
 
@@ -108,15 +173,37 @@ class LogPassData:
         self.nvals = [size // RC_SIZE[rc] for size, samples, rc in self.chans]
         self.fpr = list(d['fpr'])
         self.total = sum(self.fpr)
-        sp = abs(d['spacing'])
-        self.step_x = -sp if d['up_down'] == 1 else sp          # signed spacing along increasing frame number
+        self.float_x = bool(d.get('xfloat'))
+        self.rec_first = []
+        f = 0
+        for n in self.fpr:
+            self.rec_first.append(f); f += n
         rnd = random.Random(d['vseed'])
         jit = d.get('xjit')
-        self.x = []
-        x = d['x0']
-        for i in range(self.total):
-            self.x.append(x)
-            x += self.step_x + (jit[i % len(jit)] if jit else 0)
+        self.rec_xword = None
+        if self.float_x:
+            # X values are what the recorded words decode to (exact Fractions); spacing is the decoded entry block 8
+            xrc = d['depth_rc'] if self.indirect else self.chans[0][2]
+            sp = abs(XDEC[d['spacing_rc']](d['spacing_word']))
+            self.step_x = -sp if d['up_down'] == 1 else sp
+            x0 = Fraction(d['x0'])
+            self.xwords, self.x = [], []
+            if self.indirect:
+                self.rec_xword = [XENC[xrc](x0 + f0 * self.step_x) for f0 in self.rec_first]
+                for r, f0 in enumerate(self.rec_first):
+                    xr = XDEC[xrc](self.rec_xword[r])
+                    self.x += [xr + k * self.step_x for k in range(self.fpr[r])]
+            else:
+                self.xwords = [XENC[xrc](x0 + i * self.step_x) for i in range(self.total)]
+                self.x = [XDEC[xrc](w) for w in self.xwords]
+        else:
+            sp = abs(d['spacing'])
+            self.step_x = -sp if d['up_down'] == 1 else sp          # signed spacing along increasing frame number
+            self.x = []
+            x = d['x0']
+            for i in range(self.total):
+                self.x.append(x)
+                x += self.step_x + (jit[i % len(jit)] if jit else 0)
         # raw words [frame][chan] -> list
         self.words = []
         for i in range(self.total):
@@ -125,8 +212,8 @@ class LogPassData:
                 n = self.nvals[ci]
                 # rep code 70: words with the sign bit set make RepCode.readBytes raise OverflowError (C07's subject)
                 ws = [rnd.getrandbits(8 * RC_SIZE[rc] - (1 if rc == 70 else 0)) for _ in range(n)]
-                if ci == 0 and not self.indirect:
-                    ws[0] = enc_int(rc, self.x[i], d.get('shift68', 0))      # explicit X: first value of channel 0
+                if ci == 0 and not self.indirect:      # explicit X: first value of channel 0
+                    ws[0] = self.xwords[i] if self.float_x else enc_int(rc, self.x[i], d.get('shift68', 0))
                 row.append(ws)
             self.words.append(row)
         d = dict(d)
@@ -134,12 +221,12 @@ class LogPassData:
             d['spacing_word'] = enc_int(d['spacing_rc'], abs(d['spacing']))
         self.dfsr = encode_dfsr(d)
         self.records = []
-        self.rec_first = []
         f = 0
-        for n in self.fpr:
-            self.rec_first.append(f)
+        for r, n in enumerate(self.fpr):
             b = bytes([d['data_type'], 0])
-            if self.indirect:
+            if self.indirect and self.float_x:
+                b += word_bytes(d['depth_rc'], self.rec_xword[r])
+            elif self.indirect:
                 xr = self.x[f] if f < self.total else (self.x[-1] + self.step_x if self.x else d['x0'])
                 b += word_bytes(d['depth_rc'], enc_int(d['depth_rc'], xr, d.get('shift68', 0)))
             for i in range(f, f + n):
@@ -162,7 +249,7 @@ class LogPassData:
 
     @property
     def evenly_spaced(self):
-        return not self.d.get('xjit')
+        return not self.d.get('xjit') and not self.float_x
 
 
 def random_chans(rng, k, first_rc=None, small=False):
@@ -213,6 +300,34 @@ def random_logpass_desc(rng, data_type=0, indirect=None, max_ch=6, max_rec=6, ma
          'x0': x0, 'vseed': rng.getrandbits(32), 'xjit': None, 'shift68': rng.choice([0, 0, 3, 30])}
     if jitter and not indirect:
         d['xjit'] = [rng.choice([0, 1, 0, 2]) for _ in range(rng.randint(2, 5))]
+    return d
+
+
+FLOAT_SPACINGS = [0.1, 0.15, 1.0 / 3, 0.5, 0.1524, 0.25, 2.5, 0.05, 1.0 / 7, 0.3048, 60.0, 0.001]
+
+
+def random_float_logpass_desc(rng, data_type=0, indirect=None, max_ch=4, max_rec=5, max_fpr=9):
+    """A log pass whose X axis and frame spacing are floating point values (rep code 68, 50 or 49 for the X word;
+    the spacing in rep code 68): fine / non-dyadic spacings at large X, where single precision is visibly not enough."""
+    d = random_logpass_desc(rng, data_type=data_type, indirect=(rng.random() < 0.75 if indirect is None else indirect),
+                            max_ch=max_ch, max_rec=max_rec, max_fpr=max_fpr, small=True)
+    xrc = rng.choice([68, 68, 68, 68, 50, 49])
+    if d['indirect']:
+        d['depth_rc'] = xrc
+    else:
+        size, samples, rc = d['chans'][0]
+        d['chans'][0] = [RC_SIZE[xrc] * (size // RC_SIZE[rc]), samples, xrc]
+    sp = rng.choice(FLOAT_SPACINGS)
+    d['xfloat'] = True
+    d['spacing_rc'] = 68
+    d['spacing_word'] = enc68_float(Fraction(sp))
+    d['spacing'] = None
+    d['xjit'] = None
+    total = sum(d['fpr'])
+    if xrc == 49:
+        d['x0'] = float(rng.choice([100, 1000, 5000, 12000])) + rng.random() * 10 + (total + 1) * sp * (1 if d['up_down'] == 1 else 0)
+    else:
+        d['x0'] = float(rng.choice([1000, 3000.5, 9876.54321, 20000, 100000.25])) + rng.random() * 100
     return d
 
 
